@@ -238,6 +238,13 @@ func (l *launchScan) harmless(name string, call *ast.CallExpr) bool {
 	if strings.HasSuffix(name, ".Error") || strings.HasSuffix(name, ".String") {
 		return len(call.Args) == 0
 	}
+	// observation-only methods of *os.ProcessState (state, err := cmd.Process.Wait(); state.Success())
+	if i := strings.LastIndex(name, "."); i > 0 && len(call.Args) == 0 && !strings.HasPrefix(name, "os.") && !strings.HasPrefix(name, "syscall.") {
+		switch name[i+1:] {
+		case "Success", "ExitCode", "Exited", "Sys", "SysUsage", "SystemTime", "UserTime":
+			return true
+		}
+	}
 	// methods of package-level sync/atomic counters: launches.Add(1)
 	if i := strings.Index(name, "."); i > 0 && l.atomicVars[name[:i]] {
 		return true
@@ -472,6 +479,49 @@ func (l *launchScan) onlyStops(fd *ast.FuncDecl) bool {
 	return ok
 }
 
+func isNil(e ast.Expr) bool {
+	id, ok := e.(*ast.Ident)
+	return ok && id.Name == "nil"
+}
+
+// placementOnly: &syscall.SysProcAttr{…} whose only fields place the child in a session / process group
+func placementOnly(e ast.Expr) bool {
+	if u, ok := e.(*ast.UnaryExpr); ok && u.Op == token.AND {
+		e = u.X
+	}
+	cl, ok := e.(*ast.CompositeLit)
+	if !ok || callName(cl.Type) != "syscall.SysProcAttr" {
+		return false
+	}
+	for _, el := range cl.Elts {
+		kv, ok := el.(*ast.KeyValueExpr)
+		if !ok {
+			return false
+		}
+		k, ok := kv.Key.(*ast.Ident)
+		if !ok {
+			return false
+		}
+		switch k.Name {
+		case "Setsid", "Setpgid", "Noctty":
+			if id, ok := kv.Value.(*ast.Ident); !ok || (id.Name != "true" && id.Name != "false") {
+				return false
+			}
+		case "Pgid":
+			if _, ok := kv.Value.(*ast.BasicLit); !ok {
+				return false
+			}
+		case "Foreground":
+			if id, ok := kv.Value.(*ast.Ident); !ok || id.Name != "false" {
+				return false
+			}
+		default:
+			return false // Pdeathsig, Ptrace, Cloneflags, Credential, Chroot, …
+		}
+	}
+	return true
+}
+
 func callFun(e ast.Expr) ast.Expr {
 	if c, ok := e.(*ast.CallExpr); ok {
 		return c.Fun
@@ -553,8 +603,20 @@ func (l *launchScan) stmt(s ast.Stmt, last, top bool) {
 			// cmd.Stdout / cmd.Stderr / cmd.SysProcAttr … of the daemon's command change what the daemon inherits
 			if se, ok := x.(*ast.SelectorExpr); ok {
 				if id, ok := se.X.(*ast.Ident); ok && l.cmdVars[id.Name] {
-					switch se.Sel.Name {
-					case "Env", "Dir", "Args":
+					var rhs ast.Expr
+					if len(t.Lhs) == len(t.Rhs) {
+						for i := range t.Lhs {
+							if t.Lhs[i] == x {
+								rhs = t.Rhs[i]
+							}
+						}
+					}
+					switch {
+					case se.Sel.Name == "Env" || se.Sel.Name == "Dir" || se.Sel.Name == "Args":
+					case se.Sel.Name == "SysProcAttr" && placementOnly(rhs):
+						// session / process-group placement: still the launcher's child, still orphaned to init, still signals its parent
+						l.ignored["cmd.SysProcAttr{Setsid/Setpgid/Pgid/Noctty}"] = true
+					case (se.Sel.Name == "Stdin" || se.Sel.Name == "ExtraFiles") && isNil(rhs):
 					default:
 						l.unknown(x, "field "+se.Sel.Name+" of the daemon's exec.Cmd is set")
 					}
